@@ -56,6 +56,10 @@ CLAIMED["C08"] = ("model_checking", "5 C08",
     "Inductive step on the real container classes with abstract children whose selectability is symbolic: focus assignment for any integer, every navigation key, contents edits at "
     "symbolic indices, set_focus_path and focused rendering; focus validity, focus-path confinement of keypresses and the selectable-iff-a-child-is rule are discharged per path.",
     "z3 trusted; <= 3 children, 2 levels, child heights <= 2 rows.")
+CLAIMED["C10"] = ("model_checking", "5 C10",
+    "Inductive step on the real Edit/IntEdit: one key from an arbitrary (text over all code points, cursor offset, width) state, compared with the reference editor rules "
+    "(insert, delete, move by one character, display-row moves, signals order and payloads, unused keys returned); rendered cursor equals reported cursor.",
+    "z3 trusted; text length <= 2 quick / 3 thorough; widths concretised where layout rows are materialised; width table abstracted.")
 NOT_YET = {}
 TECH = "bounded symbolic execution of the real urwid code (AST-lifted import of /repo) with z3 deciding every path obligation; counterexamples replayed on the un-lifted code"
 def main():
